@@ -30,7 +30,8 @@
    [to_rotvec] / [of_rotvec]; their contract is a Hypothesis of the sections of Proofs/POpensfm.v:
        n2 q <> 0  ->  rot (of_rotvec (to_rotvec q)) =m= rot q.
    For the correspondence run [of_rotvec] is instantiated by [exp_series] (the power series of
-   exp(v/2), rational in v — 24 terms, truncation error < 1e-25 for |v| <= 2 pi) and [to_rotvec] by the
+   exp(v/2), a power series in |v|^2 with rational coefficients: 16 terms in 80-bit fixed point, error
+   < 1e-19 for |v| <= 2 pi) and [to_rotvec] by the
    table of values the library returned on this run, so the contract is sampled to 1e-9 on every pose. *)
 From Coq Require Import List Bool String Ascii ZArith NArith QArith Qabs Qreduction Arith.
 From Coq Require Import Decimal DecimalString DecimalNat.
@@ -371,22 +372,31 @@ Fixpoint qlist_eq (a b : list Q) : Prop :=
 (* ------------------------------------------------------------------ from_rotation_vector as a power series
    exp(v/2) = cos(y) + (v/2) sin(y)/y  with y = |v|/2;  both factors are power series in x = y^2 = |v|^2/4:
      cos y     = sum (-1)^k x^k / (2k)!      sin y / y = sum (-1)^k x^k / (2k+1)!
-   evaluated by Horner's rule with [fuel] terms, reduced after every step. *)
-Fixpoint cos_h (fuel : nat) (k : Z) (x : Q) : Q :=
+   evaluated by Horner's rule with 16 terms in fixed-point arithmetic with 80 fractional bits (integers
+   scaled by 2^80, truncating): for |v| <= 2 pi the truncation of the series is below 1e-19 and the
+   rounding below 1e-22 — far inside the 1e-9 of the property — and every number stays the size of a double,
+   which keeps vm_compute fast (reducing exact 3000-bit fractions made one pose cost half a minute). *)
+Definition fx_bits : Z := 80.
+Definition fx_one : Z := 2 ^ fx_bits.
+Definition to_fx (q : Q) : Z := Z.div (Qnum q * fx_one) (Zpos (Qden q)).
+Definition of_fx (z : Z) : Q := Qmake z (Z.to_pos fx_one).
+Definition fx_mul (a b : Z) : Z := Z.shiftr (a * b) fx_bits.
+Fixpoint cos_fx (fuel : nat) (k : Z) (x : Z) : Z :=
   match fuel with
-  | O => 1
-  | S f => Qred (1 - x / inject_Z ((2 * k - 1) * (2 * k)) * cos_h f (k + 1) x)
+  | O => fx_one
+  | S f => (fx_one - Z.div (fx_mul x (cos_fx f (k + 1) x)) ((2 * k - 1) * (2 * k)))%Z
   end.
-Fixpoint sinc_h (fuel : nat) (k : Z) (x : Q) : Q :=
+Fixpoint sinc_fx (fuel : nat) (k : Z) (x : Z) : Z :=
   match fuel with
-  | O => 1
-  | S f => Qred (1 - x / inject_Z ((2 * k) * (2 * k + 1)) * sinc_h f (k + 1) x)
+  | O => fx_one
+  | S f => (fx_one - Z.div (fx_mul x (sinc_fx f (k + 1) x)) ((2 * k) * (2 * k + 1)))%Z
   end.
 Definition exp_series (v : vec) : quat :=
-  let x := Qred (vn2 v / 4) in
-  let c := cos_h 24 1 x in
-  let s := Qred (sinc_h 24 1 x / 2) in
-  mkQ c (Qred (vx v * s)) (Qred (vy v * s)) (Qred (vz v * s)).
+  let x := to_fx (vn2 v / 4) in
+  let c := cos_fx 16 1 x in
+  let s := sinc_fx 16 1 x in
+  let part (a : Q) : Q := of_fx (Z.div (fx_mul (to_fx a) s) 2) in
+  mkQ (of_fx c) (part (vx v)) (part (vy v)) (part (vz v)).
 
 (* ------------------------------------------------------------------ correspondence
    One case = the dataset the exporter read (kapture_from_dir of the input directory, exact rationals),
@@ -466,7 +476,11 @@ Definition project_agree (m o : project) : bool :=
   && al_agree shot_agree (o_shots m) (o_shots o)
   && match o_points m, o_points o with
      | None, None => true
-     | Some a, Some b => al_agree opoint_agree a b      (* a JSON object: key -> point, order free *)
+     | Some a, Some b =>                                (* a JSON object: integer id -> point, order free *)
+         match parse_keys a, parse_keys b with
+         | Ok ka, Ok kb => al_agree opoint_agree ka kb
+         | _, _ => false
+         end
      | _, _ => false
      end
   && al_agree (fun a b => oarr_agree (fst a) (fst b) && oarr_agree (snd a) (snd b)) (o_features m) (o_features o)
